@@ -373,6 +373,19 @@ let run_header (x : sexp) : string =
       Printf.sprintf "wf=%b local=%b spec_eq=%b\t%s" wf loc (h = spec) h
   | _ -> failwith "header"
 
+(* ---- C11: containers ------------------------------------------------------------- *)
+let run_containers (x : sexp) : string =
+  match x with
+  | L [L cs; L es] ->
+      let cs = List.map (function L [A n; A k] -> (intern n, k = "s") | _ -> failwith "container") cs in
+      let es = List.map (function L [A c; A e; A m] -> ((intern c, intern e), m = "m") | _ -> failwith "edge") es in
+      let names = Hashtbl.fold (fun k v acc -> (v, k) :: acc) names [] in
+      let (depths, codes) = Containers.run cs es in
+      "codes=" ^ codes_to_string codes ^ " depths=" ^
+      String.concat "," (List.map (fun (id, d) -> List.assoc (int_of_n id) names ^ "=" ^
+                                     (match d with Some d -> string_of_n d | None -> "poison")) depths)
+  | _ -> failwith "containers"
+
 let dispatch (stream : string) (x : sexp) : string =
   match stream with
   | "labels" -> run_labels x
@@ -380,6 +393,7 @@ let dispatch (stream : string) (x : sexp) : string =
   | "exec" -> run_exec 20000 x
   | "expand" -> run_expand x
   | "header" -> run_header x
+  | "containers" -> run_containers x
   | "tables" -> run_tables (match x with A n -> int_of_string n | _ -> 64)
   | "syntax" -> run_syntax true x
   | "syntax-pinned" -> run_syntax false x
